@@ -52,4 +52,10 @@ PROPS = {
         "explanation": "Tie B only: programs over collections with duplicates, mixed types, shared and equal-but-distinct nodes; results compared class by class, with node identity and nil checks.",
         "assumptions": ["two items are equal iff their harness-computed classes coincide (numeric value across Integer/Decimal, string value across System and FHIR strings, deterministic serialisation for complex elements)"],
     },
+    "C14": {
+        "level_text": "Proof. Strings are lists of code points of any length. Props/C14.v proves: length counts characters, toChars has length() items and concatenates back to s, substring equals the list reference (out-of-range start = empty, start+length beyond the end clipped), s.substring(0,k) & s.substring(k) = s for every k >= 0, indexOf >= 0 implies the suffix at that position starts with the pattern, contains iff indexOf >= 0, startsWith/endsWith are prefix/suffix tests, and the whole model satisfies the property predicate (C14_holds_model). The model is hand-written after the character-based fix and tied by the correspondence run; every returned string is additionally checked to be valid UTF-8.",
+        "level_note": "Trusted: Coq kernel, harness + hook, check driver. Modelled rather than verified: Go strings.Index/HasPrefix/HasSuffix/Contains/ReplaceAll/Split and []rune conversion on valid UTF-8 (as list operations on code points); Unicode case mapping of upper/lower is modelled for ASCII only (any same-length answer is accepted for other code points).",
+        "explanation": "Tie B only: string programs over a multi-byte alphabet with exhaustive small strings and start/length grids.",
+        "assumptions": ["a negative substring length is unspecified by FHIRPath: the model mirrors the code (the tail), the property predicate accepts a string or empty there"],
+    },
 }
